@@ -47,6 +47,26 @@ def eval_sharded(R, out, per=6, workers=12):
     return sorted(mism), sorted(viol), total
 
 
+def mismatch_steps(R, out, idx, cases):
+    """Diagnostics for a correspondence mismatch: which steps of history idx disagree (evaluated in Coq)."""
+    try:
+        line = [l for l in open(os.path.join(out, "cases.txt")) if l.strip()][idx].strip()
+        d = os.path.join(out, "diag")
+        os.makedirs(d, exist_ok=True)
+        open(os.path.join(d, "Diag.v"), "w").write(open(os.path.join(out, "pre.v")).read() +
+            "\nDefinition c : c04_case := %s.\nDefinition D := Eval vm_compute in (mismatch_steps c).\nPrint D.\n" % line)
+        import subprocess, vlib
+        o = subprocess.run(["timeout", "300", "coqc", "-Q", vlib.COQ, "Sekai", "Diag.v"],
+                           cwd=d, stdout=subprocess.PIPE, stderr=subprocess.STDOUT, text=True).stdout
+        res = []
+        for n, l, m in re.findall(r"\((\d+)%nat, (true|false), (true|false)\)", " ".join(o.split())):
+            st = cases[idx]["steps"][int(n)]
+            res.append({"step": int(n), "ledger_replay_ok": l == "true", "model_op_ok": m == "true", "kind": st["kind"], "status": st["status"], "args": st["args"], "model": st["model"], "changed": st["changed"]})
+        return res or o[-1500:]
+    except Exception as e:  # diagnostics only
+        return "diagnostics failed: %r" % e
+
+
 def culprit(case, clause):
     """the step at which the clause was raised: clauses end in ':<operation kind>'"""
     kind = clause.rsplit(":", 1)[-1]
@@ -84,9 +104,10 @@ def run(R):
         total_hist += total
         total_steps += sum(len(c["steps"]) for c in cases)
         R.oblige("correspondence: ledger model replays the bank events of every real step, and the modelled module operations reproduce the real balances/supply/records, on %d histories" % total,
-                 not mism, "first mismatching histories: " + json.dumps([cases[i]["name"] for i in mism[:5]]))
+                 not mism, "first mismatching histories: " + json.dumps([cases[i]["name"] for i in mism[:5]]) +
+                 ((" ; disagreeing steps of the first: " + json.dumps(mismatch_steps(R, out, mism[0], cases))[:2500]) if mism else ""))
         if mism:
-            R.note("mismatching history", json.dumps(cases[mism[0]])[:6000])
+            R.note("mismatching history", cases[mism[0]]["name"], "steps:", json.dumps(mismatch_steps(R, out, mism[0], cases))[:4000])
         report(R, viol, cases)
         mid = cases[len(cases) // 2]
         R.samples = [{"history": c["name"], "steps": len(c["steps"]), "first_ops": [s["kind"] + ":" + s["status"] for s in c["steps"][14:26]]} for c in (cases[0], mid, cases[-1])]
